@@ -134,7 +134,10 @@ pub enum Op1 {
   Flat(FlatKind, Vec<InnerSpec>),
   // ---- scheduler-using
   Delay(u64),
+  /// delay_at(now + off ticks)
+  DelayAt(i64),
   DelaySubscription(u64),
+  DelaySubscriptionAt(i64),
   ObserveOn,
   SubscribeOn,
   Debounce(u64),
@@ -328,6 +331,8 @@ impl Op1 {
     matches!(
       self,
       Op1::Delay(_)
+        | Op1::DelayAt(_)
+        | Op1::DelaySubscriptionAt(_)
         | Op1::DelaySubscription(_)
         | Op1::ObserveOn
         | Op1::SubscribeOn
@@ -400,6 +405,8 @@ impl Op1 {
         FlatKind::ConcatMap => "concat_map",
       },
       Op1::Delay(_) => "delay",
+      Op1::DelayAt(_) => "delay_at",
+      Op1::DelaySubscriptionAt(_) => "delay_subscription_at",
       Op1::DelaySubscription(_) => "delay_subscription",
       Op1::ObserveOn => "observe_on",
       Op1::SubscribeOn => "subscribe_on",
@@ -631,6 +638,7 @@ macro_rules! build_fns {
     merge = $merge:ident, zip = $zip:ident, combine_latest = $combine_latest:ident,
     with_latest_from = $with_latest_from:ident, take_until = $take_until:ident,
     skip_until = $skip_until:ident, sample = $sample:ident, delay = $delay:ident,
+    delay_at = $delay_at:ident,
     observe_on = $observe_on:ident, finalize = $finalize:ident, share = $share:ident,
     merge_all = $merge_all:ident, concat_all = $concat_all:ident, flatten = $flatten:ident,
     flat_map = $flat_map:ident, concat_map = $concat_map:ident,
@@ -880,6 +888,14 @@ macro_rules! build_fns {
               let $cxs = cx;
               s.delay_subscription(ticks(*d), $sched).box_it()
             }
+            Op1::DelayAt(off) => {
+              let $cxs = cx;
+              s.$delay_at(instant_at(*off), $sched).box_it()
+            }
+            Op1::DelaySubscriptionAt(off) => {
+              let $cxs = cx;
+              s.delay_subscription_at(instant_at(*off), $sched).box_it()
+            }
             Op1::ObserveOn => {
               let $cxs = cx;
               s.$observe_on($sched).box_it()
@@ -970,7 +986,7 @@ build_fns!(
   sched = |cx| cx.sched.clone(), nc = ident_m,
   merge = merge, zip = zip, combine_latest = combine_latest,
   with_latest_from = with_latest_from, take_until = take_until,
-  skip_until = skip_until, sample = sample, delay = delay,
+  skip_until = skip_until, sample = sample, delay = delay, delay_at = delay_at,
   observe_on = observe_on, finalize = finalize, share = share,
   merge_all = merge_all, concat_all = concat_all, flatten = flatten,
   flat_map = flat_map, concat_map = concat_map,
@@ -982,7 +998,7 @@ build_fns!(
   sched = |cx| cx.sched.clone(), nc = not_cloneable_m,
   merge = merge, zip = zip, combine_latest = combine_latest,
   with_latest_from = with_latest_from, take_until = take_until,
-  skip_until = skip_until, sample = sample, delay = delay,
+  skip_until = skip_until, sample = sample, delay = delay, delay_at = delay_at,
   observe_on = observe_on, finalize = finalize, share = share,
   merge_all = merge_all, concat_all = concat_all, flatten = flatten,
   flat_map = flat_map, concat_map = concat_map,
@@ -994,7 +1010,7 @@ build_fns!(
   sched = |cx| GatedSend(cx.sched.clone()), nc = ident_m,
   merge = merge_threads, zip = zip_threads, combine_latest = combine_latest_threads,
   with_latest_from = with_latest_from_threads, take_until = take_until_threads,
-  skip_until = skip_until_threads, sample = sample_threads, delay = delay_threads,
+  skip_until = skip_until_threads, sample = sample_threads, delay = delay_threads, delay_at = delay_at_threads,
   observe_on = observe_on_threads, finalize = finalize_threads, share = share_threads,
   merge_all = merge_all_threads, concat_all = concat_all_threads, flatten = flatten_threads,
   flat_map = flat_map_threads, concat_map = concat_map_threads,
